@@ -54,6 +54,14 @@ class Cfg:
         return None
 
 
+RPKGS = ["rstring", "rlist", "rset", "rhash", "rzset", "rkey"]
+
+
+def funcs_tie(*pkgs):
+    """tie modules and changed-fact patterns for the printed source of every function of the given packages"""
+    return ["Funcs_" + p for p in pkgs], [r"^funcs\." + p + r"\." for p in pkgs]
+
+
 def scale(tier, search):
     """(processes, traces per process, ops per trace)"""
     if tier == "thorough":
@@ -75,6 +83,9 @@ class FamilyCfg(Cfg):
         self.facts = [r"^sql\." + pkg + r"\.", r"^facts\." + pkg + r"\.", r"^wrappers\." + pkg + r"\.",
                       r"^replaces", r"^schema\.trigger_" + pkg, r"^schema\.table_" + pkg, r"^schema\.index_" + pkg,
                       r"^consts\.(typedError|constraintFailed|expandIn|select)"]
+        ft, ff = funcs_tie(pkg, "core")
+        self.tie = self.tie + ft
+        self.facts = self.facts + ff
         self.extra_families = extra_families
         self.rule = (f"random traces over a 3-key universe shared by all types (operations of {family} mixed with key/expiry operations, "
                      f"hostile byte strings with p=0.05..0.5, DB level and inside caller-managed transactions) plus enumerated scripts; "
@@ -662,7 +673,7 @@ class C16(Cfg):
     facts = [r"^sql\..*\.sqlScan", r"^sql\..*\.(order|limit)$", r"^facts\..*Scan", r"^consts\.scanPageSize"]
     listed = {"D10"}
     rule = ("collections of 0..40 elements (sets, hashes, sorted sets, the keyspace with all five types) built in ascending, descending and random "
-            "order, with interleaved deletes and re-inserts, with elements written again, after a rename and as the destination of a store (the build history is replayed by the model; "
+            "order, with interleaved deletes and re-inserts, with elements written again, with multi-byte names, after a rename and as the destination of a store; one collection of 1100 elements per family drained with page sizes {default, 999, 1000, 1001, n-1, n+5, 5000} (the build history is replayed by the model; "
             "the D10 classifier is decided on the rowids the model assigns); each drained twice (cursor fed back "
             "until an empty page; Scanner object) for page sizes {default, 1, 2, 3, n, n+1, negative, random} x six patterns x type filters; "
             "a case is one drain, distinct by (collection dump, request), non-trivial when something matched")
@@ -670,7 +681,12 @@ class C16(Cfg):
     def streams(self, tier, seed, search):
         n = 16
         t = 600 if tier == "thorough" else (96 if search else 48)
-        return [dict(kind="scan", args=["-seed", seed * 1000 + 400 + i, "-traces", t, "-maxn", 40]) for i in range(n)]
+        out = [dict(kind="scan", args=["-seed", seed * 1000 + 400 + i, "-traces", t, "-maxn", 40]) for i in range(n)]
+        # collections larger than every page-size constant of the code (10, 1000), page sizes above them
+        bign = 2300 if tier == "thorough" else 1100
+        out += [dict(kind="scan", args=["-seed", seed * 1000 + 440 + i, "-big", bign, "-bigfam", f])
+                for i, f in enumerate(["key", "set", "hash", "zset"])]
+        return out
 
     def counts(self, op, v):
         return True
@@ -822,6 +838,8 @@ class C20(CrossCfg):
                     sc += f"!key.ExpireAt {k} {1000 + i}\n"
             sc += f"key.DeleteExpired {limit}\nkey.Len\nkey.DeleteExpired 0\nkey.Len\n"
             out.append(dict(kind="script", script=sc))
+        # a backlog beyond SQLite's bound-parameter limit (32766) and every batch constant of the code
+        out.append(dict(kind="tick", args=["-backlog", 120000 if tier == "thorough" else 40000]))
         if tier == "thorough":
             out.append(dict(kind="tick", args=["-seed", seed, "-keys", 2000]))
         return out
@@ -1149,6 +1167,22 @@ class C18(Cfg):
                 if search or tier == "thorough" or i % 7 == part % 7:
                     s += f"set.Scan {hx('S')} 0 {hx(pt)} -1\nhash.Scan {hx('H')} 0 {hx(pt)} -1\nzset.Scan {hx('Z')} 0 {hx(pt)} -1\nkey.Scan 0 {hx(pt)} 0 -1\n"
             out.append(dict(kind="script", script=s))
+        # names with 2-, 3- and 4-byte UTF-8 characters (the specification does not fix their meaning: the five
+        # sites are compared with the transcription of SQLite's GLOB, which decodes UTF-8 as SQLite does)
+        u = lambda t: hx(t.encode("utf-8"))
+        unames = ["k\u00e9", "k\u4e2d", "k\U0001F600", "\U0001F600", "\u00e91", "user:\U0001F600", "user:a", "user:\u00e9", "k", "ka",
+                  "user:\U0001F600tag", "\U0001F511main"]
+        upats = ["*", "?", "k*", "k?", "user:*", "user:?", "user:*tag", "k[\u00e8-\u00ea]", "k\U0001F600", "*\U0001F600*", "??", "user:[a-z]",
+                 "\U0001F600", "k\u00e9", "*main"]
+        s = "--- db\n"
+        for i, nm in enumerate(unames):
+            s += f"!str.SetExpires {u(nm)} {hx('v')} 7200000\n" if i % 3 == 1 else f"!str.Set {u(nm)} {hx('v')}\n"
+        s += f"!set.Add {hx('S')} {len(unames)} " + " ".join(u(nm) for nm in unames) + "\n"
+        for nm in unames:
+            s += f"!hash.Set {hx('H')} {u(nm)} {hx('v')}\n!zset.Add {hx('Z')} {u(nm)} 1p0\n"
+        for pt in upats:
+            s += f"key.Keys {u(pt)}\nset.Scan {hx('S')} 0 {u(pt)} -1\nhash.Scan {hx('H')} 0 {u(pt)} -1\nzset.Scan {hx('Z')} 0 {u(pt)} -1\nkey.Scan 0 {u(pt)} 0 -1\n"
+        out.append(dict(kind="script", script=s))
         return out
 
     def counts(self, op, v):
@@ -1188,3 +1222,20 @@ PROPS = {
     "C19": C19(),
     "C20": C20(),
 }
+
+# The printed source of every function of the packages a property depends on is tied to the snapshot the
+# model was transcribed from (Tie/Funcs_<pkg>): no function of those packages can change without an
+# obligation of the property breaking (and the search for a failing input being widened).
+_FUNC_TIES = {
+    "C06": RPKGS, "C10": RPKGS, "C11": RPKGS + ["sqlx"], "C12": RPKGS, "C19": RPKGS,
+    "C17": RPKGS + ["core", "parser", "redis"], "C16": ["rkey", "rset", "rhash", "rzset"],
+    "C18": ["rkey", "rset", "rhash", "rzset"],
+    "C07": RPKGS + ["sqlx", "redka"], "C08": RPKGS + ["sqlx", "redka", "server"],
+    "C09": ["sqlx", "redka", "main"], "C20": ["rkey", "redka"],
+    "C13": ["parser", "redis", "command", "server", "core"], "C14": ["parser", "redis", "command", "server"],
+    "C15": ["server", "redis", "command"],
+}
+for _pid, _pk in _FUNC_TIES.items():
+    _t, _f = funcs_tie(*_pk)
+    PROPS[_pid].tie = list(PROPS[_pid].tie) + [m for m in _t if m not in PROPS[_pid].tie]
+    PROPS[_pid].facts = list(PROPS[_pid].facts) + _f
